@@ -50,6 +50,7 @@ type FnConfig struct {
 	PB        bool
 	NoGlobal  bool
 	ReadOnly  bool
+	Reset     bool     // C05: every field of the receiver is (re)assigned on each successful return
 	AssumeWF  []string // extra entry assumptions (contract-level predicates by name) — unused yet
 }
 
@@ -76,7 +77,7 @@ func (e *Engine) buildVC(f *ssa.Function, cfg *FnConfig, dead map[string]bool) (
 			panic(r)
 		}
 	}()
-	fmt.Fprintf(&em.out, "(declare-fun elem (Int Int) Int)\n(declare-fun elem_arr (Int) Int)\n(declare-fun elem_idx (Int) Int)\n(declare-fun rkind (Int) Int)\n(declare-fun owner (Int) Int)\n(assert (= (owner 0) 0))\n")
+	fmt.Fprintf(&em.out, "(declare-fun elem (Int Int) Int)\n(declare-fun elem_arr (Int) Int)\n(declare-fun elem_idx (Int) Int)\n(declare-fun rkind (Int) Int)\n(declare-fun owner (Int) Int)\n(declare-fun atype (Int) Int)\n(assert (= (owner 0) 0))\n")
 	c.st = &State{epoch: 0, m: map[string]string{}}
 	em.wm0 = c.heapGet("$wm")
 	c.reach = map[*ssa.BasicBlock]string{}
@@ -115,6 +116,9 @@ func (e *Engine) buildVC(f *ssa.Function, cfg *FnConfig, dead map[string]bool) (
 			}
 		}
 		c.gcfg = g
+		if cfg.Reset && f.Signature.Recv() != nil && len(c.params) > 0 && c.params[0].K == KPtr {
+			c.resetRecv = c.params[0].T[0]
+		}
 		if g.pb != nil {
 			c.pbSet(0, "0")
 			c.pbSet(1, "0")
@@ -143,6 +147,7 @@ func (e *Engine) buildVC(f *ssa.Function, cfg *FnConfig, dead map[string]bool) (
 	c.run()
 	c.checkPost(c.params)
 	c.initObligations()
+	c.resetObligations()
 	if c.ct != nil {
 		for ai, as := range c.ct.Asserts {
 			if !c.assertHit[ai] && !as.Assume {
